@@ -12,7 +12,15 @@
 (*          invalid : tokens rejected by the module's validity check,      *)
 (*          rejects : a per-resource load containing an invalid rule is    *)
 (*                    refused with an error (outlier),                     *)
-(*          ordered : order inside a resource is observable]               *)
+(*          ordered : order inside a resource is observable,               *)
+(*          near    : function from NEAR-EQUAL VARIANT tokens to the token *)
+(*                    they differ from in exactly ONE field, and there only*)
+(*                    slightly (a fractional threshold, +-1 on an integer  *)
+(*                    field, a flipped enum)]                              *)
+(* The identity of a rule is its FULL field tuple = its token: "R1" and    *)
+(* its variant "R1a" are DIFFERENT rules, however close.  Reloading        *)
+(* [R1] as [R1a] is not an identical reload, R1a must be in force and be   *)
+(* reported afterwards and no controller may stay bound to R1.             *)
 (*                                                                         *)
 (* Two layers:                                                             *)
 (*  - PROPERTY level (pure operators, first part): what the statement of   *)
@@ -57,6 +65,15 @@ LastAfter(lastOf, sc, list) ==
                              ELSE lastOf[s]]
 Identical(lastOf, sc, list) == list # << >> /\ lastOf[sc] = list
 
+\* near-equal variants: same base token (and, for elements, same resource) but not necessarily the same rule
+BaseOf(d, t)    == IF t \in DOMAIN d.near THEN d.near[t] ELSE t
+NearEq(d, a, b) == ResOf(a) = ResOf(b) /\ BaseOf(d, Tok(a)) = BaseOf(d, Tok(b))
+\* elements of enf that are NOT demanded by w although a near-equal variant of them is: a controller that survived
+\* a reload old -> near-equal new (the typical effect of a rule equality that looks at less than the full field tuple)
+StaleVariants(d, enf, w) ==
+    {enf[i] : i \in {j \in DOMAIN enf : /\ \A k \in DOMAIN w : w[k] # enf[j]
+                                        /\ \E k \in DOMAIN w : NearEq(d, w[k], enf[j])}}
+
 \* answers a probing request may get: `blocks' = tokens whose rule blocks that request.
 \* The first enforced rule (in list order) that blocks is the one reported, if order is observable.
 ProbeAnswers(d, enf, blocks) ==
@@ -64,6 +81,9 @@ ProbeAnswers(d, enf, blocks) ==
     IF hits = << >> THEN {"pass"}
     ELSE IF d.ordered THEN {Tok(hits[1])}
     ELSE {Tok(hits[i]) : i \in DOMAIN hits}
+
+\* a probing request whose refusal cannot be attributed to a rule (outlier: node ejected or not): is it refused at all?
+ProbeBlocked(enf, blocks) == \E i \in DOMAIN enf : Tok(enf[i]) \in blocks
 
 \* reported list rep equals the enforced list enf (as a multiset where order is not observable)
 RECURSIVE CountIn(_, _)
@@ -110,7 +130,30 @@ Put(f, r, v) == [x \in DOMAIN f \cup {r} |-> IF x = r THEN v ELSE f[x]]
 \* whole-set path: the list is grouped by the resource each rule names (nil elements under "-")
 Keys(list)  == {ResOf(list[i]) : i \in DOMAIN list}
 Group(list) == [r \in Keys(list) |-> Restrict(list, r)]
+\* Controller reuse (buildResourceTrafficShapingController / BuildResourceCircuitBreaker): a rule of the new list that
+\* EQUALS the rule an old controller of the resource is bound to keeps that controller - and with it the OLD rule
+\* object; every other rule gets a new controller bound to itself.  Rule equality must be the full field tuple, i.e.
+\* the token (so that Rebuild(old, new) = new).  Mutant "coarseReuse": the equality ignores the field in which
+\* near-equal variants differ (e.g. compares thresholds as integers) - the old controller survives the reload.
+CtlEq(old, new) == IF Mutant = "coarseReuse" THEN NearEq(d, old, new) ELSE old = new
+RECURSIVE Rebuild(_, _)
+Rebuild(old, new) ==
+    IF new = << >> THEN << >>
+    ELSE LET n == Head(new)
+             c == IF \E j \in DOMAIN old : CtlEq(old[j], n) THEN old[CHOOSE j \in DOMAIN old : CtlEq(old[j], n)] ELSE n
+         IN  <<c>> \o Rebuild(old, Tail(new))
+\* unchanged-detection compares the raw input with the cached one, full field tuples again.  Mutant "coarseUnchanged":
+\* the comparison is done with the coarse equality.
+RECURSIVE CoarseList(_)
+CoarseList(list) == IF list = << >> THEN << >>
+                    ELSE << <<BaseOf(d, Tok(Head(list))), ResOf(Head(list))>> >> \o CoarseList(Tail(list))
+SameInput(a, b) == IF Mutant = "coarseUnchanged"
+                   THEN DOMAIN a = DOMAIN b /\ \A k \in DOMAIN a : CoarseList(a[k]) = CoarseList(b[k])
+                   ELSE a = b
 EnfOfGroup(g) ==
+    LET V(r) == SelectSeq(g[r], LAMBDA e : IsValidEl(d, e)) IN
+    [r \in {x \in DOMAIN g : V(x) # << >>} |-> Rebuild(Get(enforced, r), V(r))]
+RepOfGroup(g) ==
     LET V(r) == SelectSeq(g[r], LAMBDA e : IsValidEl(d, e)) IN
     [r \in {x \in DOMAIN g : V(x) # << >>} |-> V(r)]
 
@@ -135,10 +178,10 @@ LoadAll(list) ==
     /\ UNCHANGED d
     /\ Demand(All, list)
     /\ LET g == Group(list) IN
-       IF g = raw /\ Mutant # "neverUnchanged" THEN Unchanged
+       IF SameInput(g, raw) /\ Mutant # "neverUnchanged" THEN Unchanged
        ELSE /\ raw' = g
             /\ enforced' = EnfOfGroup(g)
-            /\ reported' = enforced'
+            /\ reported' = RepOfGroup(g)
             /\ ret' = [changed |-> TRUE, err |-> FALSE]
 
 \* the per-resource path of the list-based managers (a rule naming another resource is skipped)
@@ -152,10 +195,10 @@ LoadRes(r, list) ==
     /\ IF list = << >>
        THEN /\ raw' = Drop(raw, r) /\ enforced' = Drop(enforced, r) /\ reported' = Drop(reported, r)
             /\ ret' = [changed |-> TRUE, err |-> FALSE]      \* an empty per-resource load always reports "changed"
-       ELSE IF Get(raw, r) = list /\ r \in DOMAIN raw THEN Unchanged
+       ELSE IF r \in DOMAIN raw /\ SameInput(<<list>>, <<raw[r]>>) THEN Unchanged
        ELSE LET v == ValidOf(d, list, r)
                 \* Mutant "rawBuild": controllers are built from the raw list, the getter from the valid one
-                e == IF Mutant = "rawBuild" THEN Restrict(list, r) ELSE v
+                e == Rebuild(Get(enforced, r), IF Mutant = "rawBuild" THEN Restrict(list, r) ELSE v)
             IN  /\ raw' = Put(raw, r, list)
                 /\ enforced' = IF e = << >> THEN Drop(enforced, r) ELSE Put(enforced, r, e)
                 /\ reported' = IF v = << >> THEN Drop(reported, r) ELSE Put(reported, r, v)
@@ -208,6 +251,10 @@ NothingElseEnforced   == DOMAIN enforced \subseteq Resources /\ \A r \in DOMAIN 
 OnlyValidEnforced     == \A r \in DOMAIN enforced : \A i \in DOMAIN enforced[r] : IsValidEl(d, enforced[r][i])
 \* the getters return exactly what is enforced
 ReportedIsEnforced    == reported = enforced
+\* no controller stays bound to a rule that is merely NEAR-EQUAL to the one that was loaded: after a reload old ->
+\* near-equal new the new rule governs (implied by EnforcedIsLatestValid; named separately because it is the failure a
+\* too coarse rule equality produces, and the trace spec reports it under this name)
+NoStaleVariant        == \A r \in DOMAIN enforced : StaleVariants(d, enforced[r], want[r]) = {}
 \* an identical (non-empty) reload reports "unchanged"
 IdenticalReloadUnchanged == ident => (ret.changed = FALSE /\ ret.err = FALSE)
 \* an operation that reports an error leaves everything as it was
